@@ -122,10 +122,10 @@ class RuleLab:
     """Several rules on ONE symbolic architecture: summaries share the same z3 variables, so relational
     properties (C09, C11, C12, C14, C15) are single queries over two or three summaries."""
 
-    def __init__(self, nodes, cap: int, with_message: bool = False, tag: str = "e") -> None:
+    def __init__(self, nodes, cap: int, with_message: bool = False, tag: str = "e", window=None, background=()) -> None:
         from vf.universes import build_rule, evaluate
 
-        self.arch = SymArch(nodes, tag=tag)
+        self.arch = SymArch(nodes, tag=tag, window=window, background=background)
         self.cap = cap
         self.with_message = with_message
         self._cache: dict = {}
